@@ -195,8 +195,8 @@ def ob_bin_arithmetic(ctx, res):
         res.fail("binArith/helpers", PY, "the integer bin helpers bin_bound(len, bins, bin) / bin_of(len, bins, pos) were not found or are not pure integer expressions (%s): "
                                          "bin indices and bin spans computed in floating point disagree for non-integral widths and round wrongly (ceil(15/(15/13)) = 14)" % e)
         return
-    if [nm for nm, _ in fb.params] != ["len", "bins", "bin"] or [nm for nm, _ in fo.params] != ["len", "bins", "pos"]:
-        res.fail("binArith/signature", fb, "expected bin_bound(len, bins, bin) and bin_of(len, bins, pos)")
+    if [ty for _, ty in fb.params] != ["i32", "usize", "usize"] or [ty for _, ty in fo.params] != ["i32", "usize", "i32"]:
+        res.fail("binArith/signature", fb, "expected bin_bound(len: i32, bins: usize, bin: usize) and bin_of(len: i32, bins: usize, pos: i32)")
         return
     n = 0
     try:
@@ -233,65 +233,80 @@ def ob_bin_arithmetic(ctx, res):
 BIN_ROUTINES = ["to_array_bins", "to_array_zoom", "to_entry_array_bins", "to_entry_array_zoom"]
 
 
-def _clamped(fn, let, which):
-    """`(item.start as i32).max(start) - start` / `(item.end as i32).min(end) - start` (either argument order)"""
-    t = _sq(up(strip(let["init"])))
-    item = r"\w+\.%s(?:asi32)?" % ("start" if which == "lo" else "end")
-    lim = "start" if which == "lo" else "end"
-    m = "max" if which == "lo" else "min"
-    return re.fullmatch(r"(?:%s\.%s%s|%s\.%s%s|(?:std::cmp::)?%s%s,%s|(?:std::cmp::)?%s%s,%s)-start" % (item, m, lim, lim, m, item, m, item, lim, m, lim, item), t) is not None
-
-
 def ob_bin_routines(ctx, res):
-    """C20-B2: the four bin routines clamp the item to the range, skip items without a base in it, index bins with bin_of and span them with bin_bound"""
+    """C20-B2: the four bin routines clamp the item to the range, skip items without a base in it, index bins with bin_of and span them with bin_bound
+    (decided on provenance descriptors, so local names are free)"""
     for name in BIN_ROUTINES:
         fn = ctx.ast.fn(PY, name)
-        loops = [x for x in walk_no_nested_fn(fn.body) if x.k == "for" and up(strip(x["iter"])) == "iter"]
+        tys = [ty for _, ty in fn.params]
+        if tys[:2] != ["i32", "i32"] or tys.count("usize") != 1:
+            res.fail("binRoutine/%s/signature" % name, fn, "expected (start: i32, end: i32, .., bins: usize, ..)")
+            continue
+        S, E, B = "p0", "p1", "p%d" % tys.index("usize")
+        LEN = "(%s-%s)" % (E, S)
+        loops = [x for x in walk_no_nested_fn(fn.body) if x.k == "for" and origin(fn, x["iter"]) == "p2"]
         if len(loops) != 1:
             res.fail("binRoutine/%s/loop" % name, fn, "expected one loop over the items")
             continue
         body = loops[0]["body"]
-        lets = {}
+        lo_re = re.compile(r"\((?:\w+\(p2\)|\?deep)\.start\.max\(%s\)-%s\)|\(%s\.max\((?:\w+\(p2\)|\?deep)\.start\)-%s\)" % (S, S, S, S))
+        hi_re = re.compile(r"\((?:\w+\(p2\)|\?deep)\.end\.min\(%s\)-%s\)|\(%s\.min\((?:\w+\(p2\)|\?deep)\.end\)-%s\)" % (E, S, E, S))
+        bo = [c for c in walk_no_nested_fn(body) if c.k == "call" and up(c["func"]) == "bin_of"]
+        bb = [c for c in walk_no_nested_fn(body) if c.k == "call" and up(c["func"]) == "bin_bound"]
+        if len(bo) != 2 or len(bb) != 2:
+            res.fail("binRoutine/%s/helpers" % name, fn,
+                     "an item's first/last bin must come from bin_of and a queued bin's span from bin_bound (2 calls each); found %d/%d - bin indices or spans computed "
+                     "otherwise (floating point) disagree for non-integral widths" % (len(bo), len(bb)))
+            continue
+        ok = True
+        o = [[origin(fn, a) for a in c["args"]] for c in bo]
+        for oo, c in zip(o, bo):
+            if oo[0] != LEN or oo[1] != B:
+                res.fail("binRoutine/%s/index-args" % name, c, "bin_of must be asked about (end - start, bins, position); got origins %s" % oo[:2])
+                ok = False
+        if not ok:
+            continue
+        first = [oo for oo in o if lo_re.fullmatch(oo[2])]
+        last = [oo for oo in o if oo[2].endswith("-lit:1)") and hi_re.fullmatch(oo[2][1:-len("-lit:1)")])]
+        if len(first) != 1 or len(last) != 1:
+            res.fail("binRoutine/%s/clamp" % name, bo[0],
+                     "the first bin must be that of max(item.start, start) - start and the last that of min(item.end, end) - start - 1 (bigBed and zoom queries return "
+                     "unclipped items); positions have origins %s" % [oo[2] for oo in o])
+            continue
+        sp = sorted((_sq(up(c["args"][2])) for c in bb), key=len)
+        if any(origin(fn, c["args"][0]) != LEN or origin(fn, c["args"][1]) != B for c in bb) or not re.fullmatch(r"\w+", sp[0]) or sp[1] not in (sp[0] + "+1", "1+" + sp[0]):
+            res.fail("binRoutine/%s/span" % name, bb[0], "a queued bin's span must be [bin_bound(len, bins, bin), bin_bound(len, bins, bin + 1)); got %s" % [up(c) for c in bb])
+            continue
+        # skip guard: compares the two clamped positions, `continue`s, and precedes the first bin_of
+        firstcall = min(toplevel_in(body, c).order for c in bo)
+        guards = []
         for st in body["stmts"]:
-            if st.k == "let" and st["pat"].k == "p_ident" and st.get("init") is not None:
-                lets.setdefault(st["pat"]["name"], st)
-        miss = [k for k in ("interval_start", "interval_end", "bin_start", "bin_end") if k not in lets]
-        if miss:
-            res.fail("binRoutine/%s/steps" % name, fn, "bookkeeping step(s) %s not found at the top of the item loop" % miss)
-            continue
-        if not _clamped(fn, lets["interval_start"], "lo") or not _clamped(fn, lets["interval_end"], "hi"):
-            res.fail("binRoutine/%s/clamp" % name, lets["interval_start"],
-                     "the item must be clamped to the range before it is made relative: max(item.start, start) - start and min(item.end, end) - start "
-                     "(bigBed and zoom queries return unclipped items); got `%s` / `%s`" % (up(lets["interval_start"]["init"]), up(lets["interval_end"]["init"])))
-            continue
-        # skip guard between the clamp and the bin indices
-        guards = [st for st in body["stmts"] if st.k == "expr_stmt" and strip(st["e"]).k == "if" and lets["interval_end"].order < st.order < lets["bin_start"].order
-                  and _sq(up(strip(st["e"])["cond"])) in ("interval_end<=interval_start", "interval_start>=interval_end", "!interval_start<interval_end")
-                  and re.fullmatch(r"\{continue;?\}", up(strip(st["e"])["then"]))]
+            if st.k == "expr_stmt" and strip(st["e"]).k == "if" and st.order < firstcall:
+                i = strip(st["e"])
+                c = strip(i["cond"])
+                if c.k == "binary" and c["op"] in ("<=", ">=", "<", ">") and re.fullmatch(r"\{continue;?\}", up(i["then"])):
+                    ol, orr = origin(fn, c["l"]), origin(fn, c["r"])
+                    if c["op"] in ("<=",) and hi_re.fullmatch(ol) and lo_re.fullmatch(orr):
+                        guards.append(i)
+                    if c["op"] in (">=",) and lo_re.fullmatch(ol) and hi_re.fullmatch(orr):
+                        guards.append(i)
         if len(guards) != 1:
-            res.fail("binRoutine/%s/touching" % name, lets["bin_start"],
+            res.fail("binRoutine/%s/touching" % name, bo[0],
                      "an item with no base inside the range (range queries also return items that only touch it, e.g. starting exactly at the range end) must be skipped before "
                      "its bins are computed: otherwise its first bin index is `bins`, a bin that does not exist is queued and v[bins] is written (panic)")
             continue
-        lenlet = [x for x in walk_no_nested_fn(fn.body) if x.k == "let" and x["pat"].k == "p_ident" and x["pat"]["name"] == "len" and x.order < loops[0].order]
-        if len(lenlet) != 1 or _sq(up(lenlet[0]["init"])) != "end-start":
-            res.fail("binRoutine/%s/len" % name, fn, "`len` must be end - start")
-            continue
-        if _sq(up(lets["bin_start"]["init"])) != "bin_oflen,bins,interval_start" or _sq(up(lets["bin_end"]["init"])) != "bin_oflen,bins,interval_end-1":
-            res.fail("binRoutine/%s/index" % name, lets["bin_start"],
-                     "first and last bin of an item must be bin_of(len, bins, interval_start) and bin_of(len, bins, interval_end - 1); got `%s` / `%s`"
-                     % (up(lets["bin_start"]["init"]), up(lets["bin_end"]["init"])))
-            continue
-        spans = [x for x in walk_no_nested_fn(body) if x.k == "call" and up(x["func"]) == "bin_bound"]
-        sp = sorted(_sq(up(x)) for x in spans)
-        if sp != ["bin_boundlen,bins,bin", "bin_boundlen,bins,bin+1"]:
-            res.fail("binRoutine/%s/span" % name, fn, "a queued bin's span must be [bin_bound(len, bins, bin), bin_bound(len, bins, bin + 1)); got %s" % [up(x) for x in spans])
-            continue
-        fl = [x for x in walk_no_nested_fn(body) if x.k == "binary" and x["op"] == "/" and "bin_size" in up(x)]
+        fl = [x for x in walk_no_nested_fn(body) if x.k == "binary" and x["op"] == "/" and ("bin_size" in up(x))]
         if fl:
             res.fail("binRoutine/%s/float" % name, fl[0], "bin indices or spans are still computed in floating point")
             continue
         res.ok(fn, "%s: item clamped to the range, skipped when no base is inside, bins bin_of(start)..=bin_of(end-1), spans from bin_bound" % name)
+
+
+def toplevel_in(body, n):
+    x = n
+    while x is not None and isinstance(x, Node) and x.parent is not body:
+        x = x.parent
+    return x
 
 
 def ob_zoom_entry_stat(ctx, res):
@@ -335,9 +350,10 @@ def ob_oob_fill(ctx, res):
         return
     funcs = {"bin_of": binof, "bin_bound": bound}
     names = [nm for nm, _ in fn.params]
-    if names != ["start", "end", "length", "oob", "array"]:
-        res.fail("oobFill/signature", fn, "unexpected signature %s" % names)
+    if [ty for _, ty in fn.params][:4] != ["i32", "i32", "i32", "f64"] or len(names) != 5:
+        res.fail("oobFill/signature", fn, "unexpected signature %s (expected start, end, length: i32, oob: f64, array)" % fn.params)
         return
+    P_START, P_END, P_LEN, P_OOB, P_ARR = names
     stmts = fn.body["stmts"]
     # recognised shape: lets (pure ints), an early return on an empty range/array, then `if cond { [lets] for i in A..B / A..=B { array[i] = oob; } }` blocks
     pre_lets, ifs, early = [], [], None
@@ -375,10 +391,10 @@ def ob_oob_fill(ctx, res):
                 for end in range(start + 1, length + 5):
                     ln = end - start
                     for bins in sorted(set(list(range(1, ln + 1)))):
-                        env = {"start": start, "end": end, "length": length}
+                        env = {P_START: start, P_END: end, P_LEN: length}
                         for l in pre_lets:
                             nm = l["pat"]["name"]
-                            if up(strip(l["init"])) == "array.len()":
+                            if up(strip(l["init"])) == "%s.len()" % P_ARR:
                                 env[nm] = bins
                             else:
                                 env[nm] = ieval(l["init"], env, funcs)
@@ -443,7 +459,7 @@ def ob_bin_siblings(ctx, res):
         def book(fn):
             out = {}
             for x in walk_no_nested_fn(fn.body):
-                if x.k == "let" and x["pat"].k == "p_ident" and x["pat"]["name"] in ("len", "interval_start", "interval_end", "bin_start", "bin_end") and x.get("init") is not None:
+                if x.k == "let" and x["pat"].k == "p_ident" and x["pat"]["name"] in ("interval_start", "interval_end", "bin_start", "bin_end") and x.get("init") is not None:
                     out.setdefault(x["pat"]["name"], []).append(up(x["init"]))
                 if x.k == "while" and "front_mut()" in up(x["cond"]):
                     out.setdefault("pop-loop-head", []).append(up(x["cond"]) + " " + up(x["body"])[:60])
@@ -453,7 +469,7 @@ def ob_bin_siblings(ctx, res):
                     out.setdefault("fill", []).append(up(x))
             return out
         ba, bb = book(fa), book(fb)
-        for k in ("len", "interval_start", "interval_end", "bin_start", "bin_end", "pop-loop-head", "stop", "fill"):
+        for k in ("interval_start", "interval_end", "bin_start", "bin_end", "pop-loop-head", "stop", "fill"):
             if not ba.get(k) or not bb.get(k):
                 res.fail("binSiblings/%s-%s/%s-missing" % (a, b, k), fa if not ba.get(k) else fb, "bin bookkeeping step `%s` not found" % k)
             elif ba[k] != bb[k]:
